@@ -1,7 +1,7 @@
 (* ScanRunTheorems.v — the scan-level checkers hold of the journals of run_once, i.e. of exactly what the
    correspondence evaluates for the model (group names and cloud group names pairwise distinct). *)
 From Esc Require Import SpecScan SpecAws proofs.BaseProofs proofs.AwsProofs proofs.ScanLemmas proofs.ScanChecks proofs.ScanTheorems
-                        proofs.ScanState proofs.ScanTaint proofs.ScanOrder proofs.ScanRun.
+                        proofs.ScanState proofs.ScanTaint proofs.ScanOrder proofs.ScanParser proofs.ScanRun.
 
 Lemma named_of_find s g a : find_asg (s_cloud s) (o_asg (gi_opts g)) = Some a -> asg_named g (Some a).
 Proof. intros H. simpl. eapply find_asg_named. exact H. Qed.
@@ -26,6 +26,9 @@ Theorem run_passes_C04 : forall s, wf_groups s -> for_groups check_C04_group s (
 Proof. run_lift group_passes_C04. Qed.
 Theorem run_passes_C19_budget : forall s, wf_groups s -> for_groups check_C19_budget s (run_journals s) = true.
 Proof. run_lift group_budget_C19. Qed.
+
+Theorem run_passes_C19 : forall s, wf_groups s -> for_groups check_C19_group s (run_journals s) = true.
+Proof. run_lift group_passes_C19. Qed.
 
 (* views with distinct node names *)
 Lemma wf_snapshot_nodup s g : wf_snapshot s = true -> In g (s_groups s) -> NoDup (map n_name (x_nodes (mk_ctx s g))).
